@@ -274,6 +274,33 @@ def _tag_seq(el, out):
     return out
 
 
+def flat_payload_issues(state, flat_bytes):
+    """Every picture shown by a draw:image of content.xml is in the flat export, byte for byte (decoded)."""
+    import base64
+    import re
+
+    try:
+        root = etree.fromstring(flat_bytes)
+        croot = etree.fromstring(state["content.xml"])
+    except Exception:
+        return []
+    payloads = set()
+    for e in root.iter("{%s}binary-data" % OFFICE_NS_):
+        txt = re.sub(r"\s+", "", e.text or "")
+        try:
+            payloads.add(base64.b64decode(txt, validate=True))
+        except Exception:
+            return [("flat-xml:image-payload-not-valid-base64", {"length": len(txt), "tail": txt[-12:]})]
+    for img in croot.iter("{urn:oasis:names:tc:opendocument:xmlns:drawing:1.0}image"):
+        href = img.get("{http://www.w3.org/1999/xlink}href")
+        if href and href in state and state[href] and state[href] not in payloads:
+            return [("flat-xml:image-payload-missing-or-altered", {"href": href, "size": len(state[href])})]
+    return []
+
+
+OFFICE_NS_ = "urn:oasis:names:tc:opendocument:xmlns:office:1.0"
+
+
 def flat_structure_issues(state, flat_bytes):
     """The flat XML document must contain, in order, the children of the roots of meta,
     settings, styles and content with the same element structure. -> [(mechanism, detail)]"""
@@ -555,7 +582,7 @@ def gen_source(rng, allow_generated=True):
 
 # --------------------------------------------------------------------------- generated documents
 
-INLINE_KINDS = ["text", "s", "tab", "lb", "span", "link", "note", "annotation", "frame", "bookmark", "refmark", "spaces", "nbsp", "nnbsp"]
+INLINE_KINDS = ["text", "s", "tab", "lb", "span", "link", "note", "annotation", "frame", "bookmark", "refmark", "spaces", "nbsp", "nnbsp", "ruby"]
 
 
 def gen_doc_spec(rng, kind=None):
@@ -570,6 +597,7 @@ def gen_doc_spec(rng, kind=None):
         spec["table"] = rng.random() < 0.4
         spec["image"] = rng.random() < 0.4
         spec["image_twice"] = spec["image"] and rng.random() < 0.5
+        spec["big_image"] = rng.choice([65535, 65536, 65537, 70000, 131072, 200000]) if spec["image"] and rng.random() < 0.35 else 0
     else:
         from . import tablelab as TL
 
@@ -601,6 +629,9 @@ def build_paragraph(pieces, heading=False, rng=None, counter=[0]):
                 kids[-1].tail = (kids[-1].tail or "") + ch
             else:
                 p.text = (p.text or "") + ch
+        elif k == "ruby":
+            # East Asian annotation as other producers write it: a base with a partly formatted text
+            p.append(Element.from_tag(f'<text:ruby text:style-name="Ru1"><text:ruby-base>{word()}<text:span text:style-name="T1">{word()}</text:span>{word()}</text:ruby-base><text:ruby-text>{word()}</text:ruby-text></text:ruby>'))
         elif k == "s":
             p.append(Element.from_tag("text:s"))
         elif k == "tab":
@@ -711,6 +742,16 @@ def generate_document(spec):
             p = Paragraph("img")
             p.append(fr)
             body.append(p)
+            if spec.get("big_image"):
+                # a picture around / beyond 64 KiB (the samples only hold small ones)
+                import random as _random
+
+                size = spec["big_image"]
+                blob = PNG + bytes(_random.Random(size).getrandbits(8) for _ in range(size - len(PNG)))
+                uri3 = doc.add_file(io.BytesIO(blob))
+                p3 = Paragraph("big")
+                p3.append(Frame.image_frame(uri3, size=("3cm", "3cm"), anchor_type="as-char", name="imgbig"))
+                body.append(p3)
             if spec.get("image_twice"):  # two frames showing the same picture
                 uri2 = doc.add_file(io.BytesIO(PNG))
                 p2 = Paragraph("again")
@@ -731,7 +772,7 @@ def generate_document(spec):
 EDIT_OPS = [
     "touch_body", "touch_styles", "touch_meta", "touch_manifest", "touch_settings", "append_paragraph", "delete_first_paragraph",
     "table_set_value", "insert_style", "meta_title", "meta_userdef", "add_file_path", "add_file_io", "add_file_same", "set_part_xml",
-    "set_part_binary", "del_part_binary", "del_added", "insert_image_frame",
+    "set_part_binary", "del_part_binary", "del_added", "insert_image_frame", "add_xml_part",
 ]
 
 
@@ -848,6 +889,29 @@ def apply_edit(doc, op, model: EditModel, tmpdir):
         model.overwritten[path] = data
         model.frozen.add(path)
         return "set_part_xml:" + ("parsed-before" if path in parsed_parts(doc) else "unparsed") + ("+shortcut" if (k // 3) % 2 else "")
+    elif o == "add_xml_part":
+        # an XML part the package does not have yet (an embedded object's content, or settings.xml when the
+        # document has none) is added with set_part, then edited through the object get_part returns
+        state = memory_state(doc)
+        path = "settings.xml" if ("settings.xml" not in state and k % 2) else f"Object {k % 3 + 7}/content.xml"
+        if path in state or path in model.overwritten:
+            return "skipped"
+        if path == "settings.xml":
+            data = b'<?xml version="1.0" encoding="UTF-8"?>\n<office:document-settings xmlns:office="urn:oasis:names:tc:opendocument:xmlns:office:1.0" xmlns:config="urn:oasis:names:tc:opendocument:xmlns:config:1.0" office:version="1.2"><office:settings><config:config-item-set config:name="vf"/></office:settings></office:document-settings>'
+        else:
+            data = b'<?xml version="1.0" encoding="UTF-8"?>\n<office:document-content xmlns:office="urn:oasis:names:tc:opendocument:xmlns:office:1.0" xmlns:text="urn:oasis:names:tc:opendocument:xmlns:text:1.0" office:version="1.2"><office:body><office:text><text:p>embedded object</text:p></office:text></office:body></office:document-content>'
+        doc.set_part(path, data)
+        doc.manifest.add_full_path(path, "text/xml")
+        if "/" in path and doc.manifest.get_media_type(path.split("/")[0] + "/") is None:
+            doc.manifest.add_full_path(path.split("/")[0] + "/", "application/vnd.oasis.opendocument.text")
+        part = doc.get_part(path)
+        part.root.set_attribute("office:version", f"1.{k % 4}")
+        expected = part.serialize()
+        if b'office:version="1.%d"' % (k % 4) not in expected:
+            raise RuntimeError("harness: the edit of the new part is not in its own serialisation")
+        model.overwritten[path] = expected  # what the history says this part holds
+        model.frozen.add(path)
+        return "add_xml_part:" + ("settings" if path == "settings.xml" else "object")
     elif o == "set_part_binary":
         path = f"Pictures/vf{k % 3}.bin"
         doc.set_part(path, b"binary" + str(k).encode())
@@ -940,6 +1004,12 @@ def save_doc(doc, how, tmpdir, pretty=False, tag="", reuse=None):
         return path, Package(path)
     if how == "zip-io":
         buf = io.BytesIO() if reuse is None else reuse.setdefault("buf", io.BytesIO())
+        if reuse is not None and reuse.get("occupant") and not reuse.get("occupied"):
+            # the buffer already holds a (larger) archive: a save of another document
+            from odfdo import Document
+
+            Document(os.path.join(SAMPLES, reuse["occupant"])).save(buf)
+            reuse["occupied"] = True
         doc.save(buf, pretty=pretty)
         return buf.getvalue(), Package(buf.getvalue())
     if how == "folder":
